@@ -51,4 +51,15 @@ theorem C18_imports_stateless :
     (∀ t ∈ importedSymbols, t.2 ∈ allowImports) ∧ (∀ t ∈ importedSymbols, t.2 = "exit" → t.1 = "floor1.o") := by
   decide
 
+/-- **C18_errno_is_set_before_it_is_read** — the thread's `errno` is the one piece of ambient state
+the library looks at (to tell a read error from end of data). Every function that mentions it
+assigns it before its first other use, so what an unrelated earlier call on the thread left there
+cannot reach a decision (today the only such function is vorbisfile's `_get_data`). Textual order of
+the accesses in the function body, regenerated from the sources on every run. -/
+theorem C18_errno_is_set_before_it_is_read :
+    ∀ t ∈ errnoUses, t.2.2.toList.head? = some 'W' := by
+  decide
+
+example : errnoUses ≠ [] := by decide
+
 end Vorbis.Props.C18
